@@ -3,6 +3,7 @@ import Pcore.Model.Lockset
 import Pcore.Generated.Locksets
 import Pcore.Proofs.LazyCache
 import Pcore.Generated.CacheSites
+import Pcore.Proofs.InstantiateOnce
 /-!
 # C13 — Shared loaders, types and values are safe under concurrent use
 
@@ -38,8 +39,13 @@ Full statement / proved / missing
   half-built type; the table regenerated from types/*.go does NOT satisfy it (`C13_publish_order_fails`, known finding
   C13-type-cache-published-before-init) and the model built from that table exhibits the half-built answer
   (`C13_cache_half_built`), as the implementation does under the same schedule.
-* missing (stated, not hidden): the answer of a concurrent `Discover`; `C13_once` (file-based instantiate exactly once)
-  is not modelled yet; nested containers and the other read paths (hash keys, type checks) of shared values; the Go memory model,
+* file-based loading (`Model/InstantiateOnce.lean`: the lock-table / name-mutex / double-check protocol of
+  `fileBasedLoader.instantiate`, including the deletion of the mutex from the table after unlocking):
+  `C13_once` — under every interleaving the instantiator of a name runs at most once; `C13_once_bound` — and exactly once
+  for every name that is bound, whose value is the one its file holds; `C13_placeholder_visible` — the known finding
+  C13-placeholder-of-running-instantiation-visible is real in the model: a lookup answers not-found for a name with a file.
+* missing (stated, not hidden): the answer of a concurrent `Discover`; the instantiator's nested lookups, parse errors and
+  type sets of file-based loading; nested containers and the other read paths (hash keys, type checks) of shared values; the Go memory model,
   the real scheduler, torn reads and `-race` findings cannot be exhibited by an interleaving model at all — the lock-set
   table is syntactic and trusted.
 -/
@@ -198,6 +204,44 @@ theorem C13_miss_window_crash_before_fix :
   decide +kernel
 
 end Pcore.LoaderConc
+
+/-! ### file-based loading: instantiated exactly once -/
+namespace Pcore.Instantiate
+open Pcore.LoaderSeq
+
+/-- a lazily file-loaded definition is instantiated at most once, whatever the interleaving, the number of goroutines
+    and the names they look up -/
+theorem C13_once (files : List (Key × V)) (progs : List (List Key)) (c : Config)
+    (hr : Reachable (Config.init files progs) c) (k : Key) : c.reads.count k ≤ 1 :=
+  (Inv_reachable (Inv_init files progs) hr).i7 k
+
+/-- … and exactly once for a name that is bound; what is bound is what the file holds -/
+theorem C13_once_bound (files : List (Key × V)) (progs : List (List Key)) (c : Config)
+    (hr : Reachable (Config.init files progs) c) (k : Key) (v : V) (hb : lk k c.es = some (some v)) :
+    c.reads.count k = 1 ∧ fileOf k c.files = some v := by
+  have h1 := C13_once files progs c hr k
+  have h2 := Sourced_reachable (Sourced_init files progs) hr k v hb
+  have h3 : 0 < c.reads.count k := List.count_pos_iff.mpr h2.1
+  exact ⟨by omega, h2.2⟩
+
+def fileA : List (Key × V) := [("a", .al "A" 1)]
+/-- thread 1 looks `a` up and runs until it is parked between the placeholder and the instantiator; thread 0 then looks
+    `a` up: it meets the placeholder -/
+def visibleConfig : Config := iter (Config.init fileA [["a"], ["a"]]) [1, 1, 1, 1, 1, 1, 1, 0]
+
+/-- the known finding in the model: a name that HAS a file is answered not-found while its instantiation is in progress
+    (the schedule `1 1` of the finding's witness op) -/
+theorem C13_placeholder_visible :
+    Reachable (Config.init fileA [["a"], ["a"]]) visibleConfig ∧ fileOf "a" visibleConfig.files = some (.al "A" 1) ∧
+    (visibleConfig.th.map (·.log)) = [[.notfound], []] ∧ (visibleConfig.th.map (·.pc)) = [.idle, .instRun "a" 0] :=
+  ⟨reachable_iter _ _ _ Reachable.init, by decide, by decide, by decide⟩
+
+-- non-vacuity of C13_once_bound: after both threads have finished the name is bound and was read once
+example : let c := iter visibleConfig [1, 1, 1, 1]
+    lk "a" c.es = some (some (.al "A" 1)) ∧ c.reads.count "a" = 1 ∧ c.th.map (·.log) = [[.notfound], [.found (.al "A" 1)]] := by
+  decide
+
+end Pcore.Instantiate
 
 /-! ### lazily built type caches -/
 namespace Pcore.LazyCache
